@@ -209,7 +209,13 @@ class DefUse:
             roots = [s]
         out = []
         for r in roots:
+            covered = set()  # sub-chains of a longer named location are not separate reads
             for sub in ast.walk(r):
+                if isinstance(sub, (ast.Attribute, ast.Subscript)) and loc_name(sub) is not None:
+                    covered.add(id(sub.value))
+            for sub in ast.walk(r):
+                if id(sub) in covered:
+                    continue
                 if isinstance(sub, ast.Name) and isinstance(sub.ctx, ast.Load):
                     out.append((sub.id, sub))
                 elif isinstance(sub, (ast.Attribute, ast.Subscript)) and isinstance(sub.ctx, ast.Load):
@@ -220,6 +226,9 @@ class DefUse:
                     nm = loc_name(sub.target)
                     if nm:
                         out.append((nm, sub.target))
+                if isinstance(sub, ast.Call) and isinstance(sub.func, ast.Attribute) and isinstance(sub.func.value, ast.Name):
+                    # a method call on an object may read any of its attributes
+                    out.append((sub.func.value.id, sub))
         return out
 
     def uses_of(self, d: Def) -> List[Tuple[CNode, ast.AST]]:
